@@ -257,8 +257,9 @@ pub enum RespBody {
     None,
     /// `n` raw bytes follow the head (Content-Length or close-delimited)
     Raw(Vec<u8>),
-    /// chunked coding bytes follow the head; payload known by construction
-    Chunked { coding: Vec<u8>, payload: Vec<u8> },
+    /// chunked coding bytes follow the head; payload known by construction;
+    /// `ranges`: for each chunk (offset of its data in `coding`, offset in `payload`, length)
+    Chunked { coding: Vec<u8>, payload: Vec<u8>, ranges: Vec<(usize, usize, usize)> },
 }
 
 #[derive(Clone, Debug, PartialEq, Eq, Hash)]
